@@ -570,6 +570,37 @@ def declaration_retypes_its_variable(ctx):
                       nontrivial=(groups != ("PURE",)))
 
 
+def declaration_with_several_declarators(ctx):
+    """`T a = 1, b = 2;`: either rejected, or every declarator's assignment is re-typed AND part of what the callback hands on (the
+    assignments of the earlier declarators are effects like any other)"""
+    idx = get_index(ctx.env)
+    r = Runner(idx)
+    seen = []
+    r.summarised = r.summarised | {"set_dest_type"}
+    r.s_set_dest_type = lambda interp, args, kwargs, seen=seen: seen.append(lab(args[0]) if args else "?")
+    box = {}
+
+    def items():
+        seen.clear()
+        asg = []
+        for k in (1, 2, 3):
+            dest = r.pure(f"x{k}", vt=vt_case(f"tp{k}", True, 32), cls="Variable", type=EnumV("PureType", "LOCAL", 1))
+            asg.append(AObj("Assignment", {"dest": dest, "src": r.pure(f"init{k}", vt=vt_case(f"ti{k}", True, 32))}, label=f"assig{k}", opaque=True))
+        box["asg"] = asg
+        return [vt_case("T", True, 64), asg]
+    fi, outs = r.run("declaration", items)
+    bad = []
+    for o in outs:
+        if o.kind == "raise":
+            continue
+        from sa.kinds import KindEngine
+        reached = KindEngine.reach(o.value)
+        lost = [a.label for a in box["asg"] if id(a) not in reached]
+        if lost:
+            bad.append(f"returns {lab(o.value)[:40]}: {lost} not part of the result")
+    ctx.check("declaration with several declarators: rejected, or every initialisation is handed on", not bad, "raise, or all assignments in the result", "; ".join(sorted(set(bad))[:2]) or "rejected / complete", fn_where(idx, fi), nontrivial=False)
+
+
 def declared_type_callbacks(ctx):
     """`unsigned int` is unsigned int, in a declaration and in a cast: the two callbacks that combine a specifier with a type"""
     idx = get_index(ctx.env)
